@@ -321,46 +321,7 @@ func checkC01(p *Prog, res *Result, tier string) {
 			}
 		case cmp != nil:
 			// dynamic: flagged on the edge(s) on which the value is known to be the marker, and only there
-			ph, isPhi := resolve(N).(*ssa.Phi)
-			good := isPhi
-			if isPhi {
-				nFlag := 0
-				for i, e := range ph.Edges {
-					rb, ok := p.revisionBytesOf(e)
-					if !ok {
-						good = false
-						continue
-					}
-					pred := ph.Block().Preds[i]
-					marker := false
-					for _, cf := range dominatingFacts(pred) {
-						if isMarkerFact(cf) {
-							marker = true
-						}
-					}
-					// the edge from the branch block itself: the fact of that edge
-					if iff := ifOf(pred); iff != nil && !marker {
-						for si := 0; si < 2; si++ {
-							if pred.Succs[si] == ph.Block() {
-								for _, cf := range expandFact(edgeFact(edge{pred, si}), 0) {
-									if isMarkerFact(cf) {
-										marker = true
-									}
-								}
-							}
-						}
-					}
-					if rb.Flag != marker {
-						good = false
-					}
-					if rb.Flag {
-						nFlag++
-					}
-				}
-				if nFlag == 0 {
-					good = false
-				}
-			}
+			good := flagFollowsMarker(p, N, isMarkerFact, 0)
 			if good {
 				res.ok("C01-R7", construct, pos, "the flag is appended on the branch where the re-played value is the deletion marker, and only there")
 			} else {
@@ -591,4 +552,108 @@ func checkExpectedProvenance(p *Prog, r *Roles, ts *tombstoneRole, a *allocInfo,
 	default:
 		res.ok("C01-R3", construct, p.pos(site.Pos()), "observed bytes, used only under isTombstone && prevRevision < revision of ParseRevision(observed)")
 	}
+}
+
+// flagFollowsMarker: the revision bytes v carry the deletion flag exactly on the paths on which `marker` holds. v is a
+// phi whose flagged edges are those guarded by the marker fact, or the result of a helper h(.., b, ..) whose bool
+// argument b is the marker test itself and whose result follows b in the same way.
+func flagFollowsMarker(p *Prog, v ssa.Value, marker func(condFact) bool, depth int) bool {
+	if depth > 3 {
+		return false
+	}
+	v = resolve(v)
+	switch x := v.(type) {
+	case *ssa.Phi:
+		nFlag := 0
+		for i, e := range x.Edges {
+			rb, ok := p.revisionBytesOf(e)
+			if !ok {
+				return false
+			}
+			pred := x.Block().Preds[i]
+			holds := false
+			for _, cf := range dominatingFacts(pred) {
+				if marker(cf) {
+					holds = true
+				}
+			}
+			if iff := ifOf(pred); iff != nil && !holds {
+				for si := 0; si < 2; si++ {
+					if pred.Succs[si] == x.Block() {
+						for _, cf := range expandFact(edgeFact(edge{pred, si}), 0) {
+							if marker(cf) {
+								holds = true
+							}
+						}
+					}
+				}
+			}
+			if rb.Flag != holds {
+				return false
+			}
+			if rb.Flag {
+				nFlag++
+			}
+		}
+		return nFlag > 0
+	case *ssa.Call:
+		h := x.Common().StaticCallee()
+		if h == nil || h.Blocks == nil || h.Signature.Results().Len() != 1 {
+			return false
+		}
+		for j, a := range x.Common().Args {
+			bt, ok := a.Type().Underlying().(*types.Basic)
+			if !ok || bt.Kind() != types.Bool || j >= len(h.Params) {
+				continue
+			}
+			// the argument is the marker test
+			isTest := false
+			for _, cf := range expandFact(factOf(a, true), 0) {
+				if marker(cf) {
+					isTest = true
+				}
+			}
+			if !isTest {
+				continue
+			}
+			prm := h.Params[j]
+			inner := func(cf condFact) bool { return cf.Raw == ssa.Value(prm) && cf.Want }
+			var rets []ssa.Value
+			for _, b := range h.Blocks {
+				if ret, ok := b.Instrs[len(b.Instrs)-1].(*ssa.Return); ok {
+					rets = append(rets, ret.Results[0])
+				}
+			}
+			if len(rets) == 1 && flagFollowsMarker(p, rets[0], inner, depth+1) {
+				return true
+			}
+			// several returns: each is flagged exactly when its block is guarded by the parameter
+			if len(rets) > 1 {
+				okAll, nFlag := true, 0
+				for _, b := range h.Blocks {
+					ret, ok := b.Instrs[len(b.Instrs)-1].(*ssa.Return)
+					if !ok {
+						continue
+					}
+					rb, ok := p.revisionBytesOf(ret.Results[0])
+					holds := false
+					for _, cf := range dominatingFacts(b) {
+						if inner(cf) {
+							holds = true
+						}
+					}
+					if !ok || rb.Flag != holds {
+						okAll = false
+					}
+					if ok && rb.Flag {
+						nFlag++
+					}
+				}
+				if okAll && nFlag > 0 {
+					return true
+				}
+			}
+		}
+	}
+	return false
 }
